@@ -52,7 +52,8 @@ PROPS = {
         "level_note": "trusted: the harness's snapshot/diff (M2) and Build, which round-trip each other on every case; structural mutators are applied to non-modular genomes only",
         "rule": "G-direct genomes (1-5 inputs, 0-2 bias, 1-3 outputs, 0-8 hidden, 1-20 genes, 0-2 modules); non-trivial = genome with a disabled gene, a module or a nil trait; distinct by (#nodes, #genes, #modules, #disabled, #recurrent, #nil traits)",
         "assumptions": ["trait ids are consecutive and >= 1 (0 is the file syntax for 'no trait')", "a panic inside a mutator is attributed to C01/C05, not to C06"],
-        "expect_classes": {"dup": ["disabled gene", "recurrent gene", "nil trait", "modular", "disabled module"], "spawn": ["start genome with disabled genes", "modular start genome"]},
+        "expect_classes": {"dup": ["disabled gene", "recurrent gene", "nil trait", "modular", "disabled module"], "spawn": ["start genome with disabled genes", "modular start genome"],
+                           "history": ["op:duplicate", "disabled gene", "recurrent gene"]},
     },
     "C04": {
         "run": "^TestC04",
